@@ -189,6 +189,45 @@ def check_level_min(rep, config):
             key='T-LEVEL-MIN|%s|fallback' % config, sample='[%s] stateless level-1 fallback buffer %d >= %d' % (config, v['lvl1fallback'], v['L1']))
 
 
+def check_out_guard(rep):
+    import provenance, outguard, kernels
+    R = rep.rule('M-OUT-GUARD', 'asm Huffman encoders (encode_deflate_icf_<isa>): every store through the output pointer is preceded on every path, with no redefinition of the pointer in between, by a compare against a '
+                 'bound register that equals BitBuf2.m_out_end + c for a bounded set of constants c (the offset does not accumulate around any loop), and max(c) + displacement + store width <= the reserve set_buf() '
+                 'keeps behind m_out_end (for stores with a data-dependent non-negative index: with index 0, a necessary condition)', floor=2, unit='kernels')
+    res, _ = provenance.analyse('default')
+    o = kernels.offsets()['deflate']
+    mg = outguard.margin()
+    n = 0
+    for sym, info in sorted(res.items()):
+        if info['fam']['family'] != 'igzip_encode_df':
+            continue
+        n += 1
+        R.instance()
+        u, f = info['unit'], info['func']
+        r = outguard.analyse(u, f, info['flow'], info['accesses'], o['_m_out_buf'], o['_m_out_end'])
+        if not r['stores'] or not r['nguards']:
+            raise AnalysisBroken('%s: no output stores / bound compares recognised (%d/%d)' % (sym, len(r['stores']), r['nguards']))
+        for i, reg, disp, width, g, indexed in r['stores']:
+            where = '%s: %s' % (u.name, u.where(i, f))
+            key = 'M-OUT-GUARD|%s|%#x' % (sym, i.addr - f.entry)
+            if isinstance(g, str):
+                R.fail(where, 'store of %d bytes through the output pointer %s: %s' % (width, reg, g), key=key)
+                continue
+            bad = None
+            for (greg, slack, cmpi) in g:
+                if slack == outguard.TOP:
+                    bad = 'the bound checked by "%s" (%s) is not m_out_end plus a bounded constant: its offset changes from one loop iteration to the next, so the check stops limiting the output pointer' % (cmpi.text, u.where(cmpi, f))
+                elif max(slack) + disp + width > mg:
+                    bad = 'the check "%s" (%s) admits pointer <= m_out_end%+d; a %d-byte store at displacement %d may then end %d bytes past the %d-byte reserve behind m_out_end' % (
+                        cmpi.text, u.where(cmpi, f), max(slack), width, disp, max(slack) + disp + width - mg, mg)
+            R.check(bad is None, where, bad or '', key=key,
+                    sample='%s: %d-byte store%s guarded by pointer <= m_out_end%+d (reserve %d)' % (sym, width, ' (indexed)' if indexed else '', max(max(s) for _, s, _ in g), mg) if bad is None and (width >= 16 or indexed) else None)
+        for i in r['undecided']:
+            R.notes.append('%s: store without a base register not decided: %s' % (sym, i.text))
+    if n == 0:
+        raise AnalysisBroken('no encode_deflate_icf kernels found')
+
+
 def main(tier):
     rep = Report('C10', tier, level='other')
     rep.undecided = UNDECIDED
@@ -206,4 +245,5 @@ def main(tier):
     import c01
     for c in CONFIGS:
         c01.check_wrapper_consts(rep, c)
+    check_out_guard(rep)
     return rep.finish()
